@@ -50,6 +50,7 @@ class TLCResult:
     notes: list = field(default_factory=list)
     coverage: dict = field(default_factory=dict)  # action name -> (distinct, total)
     trace: list = field(default_factory=list)     # counterexample states (dicts) when dump_trace=True
+    ncases: int = 0                               # CASE lines seen when keep_cases=False (streamed to on_line)
     finished: bool = False
     tail: str = ""
     cmd: str = ""
@@ -67,7 +68,7 @@ class TLCResult:
             "depth": self.depth,
             "violated": self.violated,
             "wall_s": round(self.wall_s, 2),
-            "cases": len(self.cases),
+            "cases": len(self.cases) or self.ncases,
         }
 
 
@@ -120,6 +121,7 @@ def run(
     heap: str = "3g",
     on_line=None,
     dump_trace: bool = False,
+    keep_cases: bool = True,
 ) -> TLCResult:
     """Run TLC. `cfg` names a file in spec/cfg/ (without directory); `cfg_text` supplies one inline.
 
@@ -185,7 +187,10 @@ def run(
                     elif m.group(1) == "NOTE":
                         res.notes.append(rec)
                     else:
-                        res.cases.append(rec)
+                        if keep_cases:
+                            res.cases.append(rec)
+                        else:
+                            res.ncases += 1
                         if on_line:
                             on_line(rec)
                     continue
